@@ -185,6 +185,9 @@ class GrammarSystem(System):
         return run_doc("MARKER first paragraph\n\n" + body)
 
 
+SX_FR = FR + ["```{only} html\n## Honly\n\ntext\n```\n", "```{only} html\n# H1only\n\ntext\n\n## H2only\n```\n", "### Deep\n", "````{note}\n```{only} html\n## Hn\n```\n````\n"]
+
+
 class SphinxSystem(System):
     name = "sphinx"
     jobs = 8
@@ -204,23 +207,24 @@ class SphinxSystem(System):
         self.drv = SphinxDriver(self.root / f"w{wid}", conf=f"myst_enable_extensions={EXT!r}\nmyst_heading_anchors=3\nsuppress_warnings=['image.not_readable']\n")
 
     def bounds(self):
-        return {"fragments": 2, "pool": len(FR)}
+        return {"fragments": 2, "pool": len(SX_FR)}
 
     def rule(self):
-        return "one case = one fragment sequence; non-trivial = always"
+        return "one case = one fragment sequence (pool + Sphinx-only fragments: headings inside {only}); non-trivial = always"
 
     def cases(self):
         step = 1 if self.tier != "quick" else 2
-        for i in range(len(FR)):
+        n = len(SX_FR)
+        for i in range(n):
             yield [i]
-        for a in range(0, len(FR), step):
-            for b in range(len(FR)):
+        for a in list(range(0, len(FR), step)) + list(range(len(FR), n)):
+            for b in range(n):
                 yield [a, b]
 
     def run(self, idx):
         if not hasattr(self, "drv"):
             self.worker_init(99)
-        text = "# Title\n\nMARKER first paragraph\n\n" + "\n".join(FR[i] for i in idx)
+        text = "# Title\n\nMARKER first paragraph\n\n" + "\n".join(SX_FR[i] for i in idx)
         try:
             doc, warn = self.drv.read("t", text, resolve=True)
         except Exception as exc:
